@@ -23,8 +23,11 @@ var filetypes = []filetype{
 	{[]string{"known_hosts"}, nil, nil, SSHKnownHosts},
 	{nil, []string{"ssh-dss", "ssh-rsa", "ecdsa-sha2-", "ssh-ed25519", "ssh-ed448"}, nil, SSHPublicKey},
 	{nil, nil, IsUUID, UUIDValue},
-	{nil, nil, IsASN1, ASN1File},
+	// Base64 text that decodes to an ASN.1 value comes before binary ASN.1: such text can
+	// itself be read as one BER value (e.g. 70 characters starting with "MD"), and
+	// ASN1File accepts anything.
 	{nil, nil, IsBase64ASN1, Base64ASN1File},
+	{nil, nil, IsASN1, ASN1File},
 	{nil, nil, IsJWT, JWTData},
 	{nil, nil, IsMixedPEM, PEMFile},
 }
